@@ -92,6 +92,7 @@ const (
 const (
 	flagAccessCalled uint8 = 1 << iota
 	flagReaccess
+	flagAccessStale
 )
 
 var (
@@ -777,6 +778,10 @@ func (s *Subscription) processModelEvent(event *rescache.ResourceEvent) {
 func (s *Subscription) handleReaccess(t *rescache.Throttle) {
 	s.access = nil
 	s.flags &= ^flagReaccess
+	// The answer of an access request already in flight is out of date
+	if s.flags&flagAccessCalled != 0 {
+		s.flags |= flagAccessStale
+	}
 
 	if s.direct == 0 {
 		return
@@ -886,6 +891,9 @@ func (s *Subscription) reaccess(t *rescache.Throttle) {
 		// the cached access must not be used in the meantime.
 		s.access = nil
 		s.flags |= flagReaccess
+		if s.flags&flagAccessCalled != 0 {
+			s.flags |= flagAccessStale
+		}
 		if t != nil {
 			s.reaccessThrottle = t
 		}
@@ -928,6 +936,9 @@ func (s *Subscription) loadAccess(cb func(*rescache.Access), t *rescache.Throttl
 
 					cbs := s.accessCallbacks
 					s.flags &= ^flagAccessCalled
+					if s.retryStaleAccess(cbs) {
+						return
+					}
 					// Only store in case of an actual result or system.accessDenied error
 					if access.Error == nil || access.Error.Code == reserr.CodeAccessDenied {
 						s.access = access
@@ -950,6 +961,9 @@ func (s *Subscription) loadAccess(cb func(*rescache.Access), t *rescache.Throttl
 
 				cbs := s.accessCallbacks
 				s.flags &= ^flagAccessCalled
+				if s.retryStaleAccess(cbs) {
+					return
+				}
 				// Only store in case of an actual result or system.accessDenied error
 				if access.Error == nil || access.Error.Code == reserr.CodeAccessDenied {
 					s.access = access
@@ -962,6 +976,21 @@ func (s *Subscription) loadAccess(cb func(*rescache.Access), t *rescache.Throttl
 			})
 		})
 	}
+}
+
+// retryStaleAccess discards an access answer that was requested before a token
+// change, reaccess event or access reset, and requests access again for the
+// waiting callbacks. It returns true if the answer was discarded.
+func (s *Subscription) retryStaleAccess(cbs []func(*rescache.Access)) bool {
+	if s.flags&flagAccessStale == 0 {
+		return false
+	}
+	s.flags &= ^flagAccessStale
+	s.accessCallbacks = nil
+	for _, cb := range cbs {
+		s.loadAccess(cb, nil)
+	}
+	return true
 }
 
 // CanGet checks asynchronously if the client connection has access to get (read)
